@@ -25,6 +25,7 @@ structure St where
   -- store flush has completed since
   taint11 : Bool := false
   imgTaint11 : Bool := false
+  upgradingOpen : Bool := false      -- the last op was the open that upgrades a legacy store
 deriving Repr
 
 def showRead (r : Driver.Seq.St → Bytes → (Mem × GetRes)) : Unit := ()
@@ -69,8 +70,12 @@ def step (st : St) (l : Line) : St × List Msg :=
       (if r1 = r0 ++ ["vc4a5"] then [] else [Msg.prop (tag ++ s!"contents change across follow-up put/flush/GC cycles: r0=[{ra.get "r0"}] r1=[{ra.get "r1"}]")]) ++
       (if r2 = r1 then [] else [Msg.prop (tag ++ s!"contents change across close and rescan: r1=[{ra.get "r1"}] r2=[{ra.get "r2"}]")])
     -- (b) correspondence: the model's recovery of the same bytes
+    let remapPending : Bool := match im.disk.ihdr with
+      | some h => h.pfs == 0 && st.seq.cfg.kind == .mh
+      | none => false
     let corr :=
-      if im.extra.any (fun n => (n.splitOn "/").length > 1) then []   -- translation temp directories: not modelled, oracle only
+      if !im.extra.isEmpty then []   -- translation temp directories, legacy files, remap temporaries: not modelled, oracle only
+      else if remapPending then []   -- offset remapping pending: not modelled
       else if im.badIdxHdr ∨ im.badPriHdr then
         (if openRes = "err" then [] else [Msg.corr (tag ++ s!"recovery: model=[open=err (unparsable header)] impl=[open={openRes}]")])
       else
@@ -89,7 +94,13 @@ def step (st : St) (l : Line) : St × List Msg :=
     -- D13: between the moment the old header left the index directory and the moment the new one arrived
     let noHeader := inTranslate && im.disk.ihdr.isNone && !im.badIdxHdr
     let tainted := if isEnd then st.taint11 else (st.imgTaint11 || st.taint11)
-    let known := if noHeader then " [known:D13 translate-header-absent]" else if tornPrimary then " [known:D12 torn-primary-tail]"
+    -- D14: the resume of the offset remapping trusts `.remapped` markers, which are created before the remapped copy is renamed
+    -- over the original and whose files' deletion pool is not rebuilt
+    let remapMarked := im.extra.any (·.endsWith ".remapped") ||
+      -- second form: unmappable entries are rewritten to offset 0 in the file and deleted only by an in-memory pool that is
+      -- flushed after Open; a crash of the upgrading open in between leaves them pointing at offset 0
+      (!st.seq.legacyBad.isEmpty && st.lastOp == "open" && st.upgradingOpen)
+    let known := if remapMarked then " [known:D14 remap-marker-before-rename]" else if noHeader then " [known:D13 translate-header-absent]" else if tornPrimary then " [known:D12 torn-primary-tail]"
                  else if tainted then " [known:D11 gc-handover-with-dirty-index]" else ""
     let tagMsg := fun (m : Msg) => match m with
       | .prop s => Msg.prop (s ++ known)
@@ -106,7 +117,7 @@ def step (st : St) (l : Line) : St × List Msg :=
     let (seq', msgs) := Driver.Seq.step st.seq l'
     let after := seq'.spec
     let kind := match seq'.store.mem with | some m => m.kind | none => seq'.cfg.kind
-    let st1 := { st with seq := seq', lastOp := l.op }
+    let st1 := { st with seq := seq', lastOp := l.op, upgradingOpen := l.op == "open" && st.seq.needSync }
     -- acknowledged effects
     let st2 :=
       if (l.op = "put" ∨ l.op = "rm") ∧ (res' = "ok" ∨ res' = "true") then
@@ -120,7 +131,8 @@ def step (st : St) (l : Line) : St × List Msg :=
     let st3 := if hadImages then { st2 with imgBase := st.base, imgSince := st.since, imgTaint11 := st.taint11 } else st2
     -- a completed Flush / iteration / Close / reopen establishes a new baseline
     let completes := (l.op = "flush" ∨ l.op = "iter" ∨ l.op = "close") ∧ res'.startsWith "ok"
-    let st4 := if completes then { st3 with base := after, since := [], taint11 := false } else st3
+    let st4 := if completes then { st3 with base := after, since := [], taint11 := false }
+               else if l.op = "legacy" then { st3 with base := after, since := [], imgBase := after, imgSince := [] } else st3
     (st4, msgs)
 
 end Driver.Crash
